@@ -168,6 +168,7 @@ func (x *Executor) havocCall(fr *Frame, st *State, reach, what string, args []Va
 	if u.mute == 0 {
 		u.notes["havoc: "+what+" in "+fr.fn.Name()] = true
 	}
+	x.escape(st, args...)
 	x.havocAll(st)
 	return x.freshResult(st, resTy, false)
 }
@@ -189,7 +190,12 @@ func (x *Executor) havocAll(st *State) {
 		if u.heapKinds[c] == "global" && u.eng.isConstGlobal(c) {
 			continue
 		}
-		x.heapHavoc(st, c)
+		old := x.heapGet(st, c)
+		n := x.heapHavoc(st, c)
+		x.protectComp(st, st, c, old, n)
+	}
+	if len(st.fresh) > 0 {
+		u.trusted["objects allocated by the function under contract whose address never reached the heap or un-contracted code are not modified by unknown callees"] = true
 	}
 	x.recordWriteAll()
 	st.ghost = map[string]string{}
@@ -223,7 +229,7 @@ func (x *Executor) execInvoke(fr *Frame, st *State, reach string, call *ssa.Call
 		}
 	}
 	x.check(fr, "nil", fmt.Sprintf("(not (= (i.tag %s) 0))", recv.T), reach, "method call on nil interface")
-	return x.havocCall(fr, st, reach, "interface call "+it.String()+"."+mname, args, resTy)
+	return x.havocCall(fr, st, reach, "interface call "+it.String()+"."+mname, append([]Val{recv}, args...), resTy)
 }
 
 // ------------------------------------------------------------------ contracts at call sites
@@ -277,6 +283,13 @@ func (x *Executor) applyContract(fr *Frame, st *State, reach string, con *Contra
 		u.assume(fmt.Sprintf("(forall ((r Int)) (! (=> (select %s r) (select %s r)) :pattern ((select %s r))))", old, n, old))
 	}
 	res := x.freshResult(st, resTy, false)
+	res.Taint = unionTaint(args...)
+	for i := range res.Tup {
+		res.Tup[i].Taint = res.Taint
+	}
+	if con.ModAll {
+		x.escape(st, args...)
+	}
 	// bind results
 	if len(res.Tup) > 0 {
 		for i, n := range con.Results {
@@ -535,7 +548,11 @@ func (x *Executor) inline(fr *Frame, st *State, reach string, callee *ssa.Functi
 		for j := len(nf.exits) - 2; j >= 0; j-- {
 			t = fmt.Sprintf("(ite %s %s %s)", nf.exits[j].cond, nf.exits[j].results[i].T, t)
 		}
-		outs = append(outs, Val{T: u.define("ret$"+callee.Name(), u.sortOf(first.Ty), t), Ty: first.Ty})
+		var rvs []Val
+		for _, e := range nf.exits {
+			rvs = append(rvs, e.results[i])
+		}
+		outs = append(outs, Val{T: u.define("ret$"+callee.Name(), u.sortOf(first.Ty), t), Ty: first.Ty, Taint: unionTaint(rvs...)})
 	}
 	if nres == 1 {
 		return outs[0]
